@@ -22,6 +22,12 @@ From GY Require Import Base.Outcome.
 Import ListNotations.
 Local Open Scope string_scope.
 
+(* Extraction only: Coq's String module would become String.ml and shadow OCaml's Stdlib.String in
+   the driver (s.[i] is String.get); the blacklist makes the extracted file String0.ml.  It renames
+   a file, nothing else. *)
+Require Extraction.
+Extraction Blacklist String.
+
 (* ------------------------------------------------------------------ the table *)
 
 Inductive fkind :=
@@ -230,7 +236,18 @@ Definition finish (sd : sdef) (ty kw nm : string) (sr pa : option nat) (st : bst
   let '(fs, ex, fd) := st in
   if check_required sd kw fd then Ok (Node ty nm sr pa fs ex) else Err.
 
-(* ast.go: build.  Structural recursion on the statement tree. *)
+(* `for _, ss := range stmt.statements { ... }`: stops at the first error *)
+Section Loop.
+  Variable stepf : stmt -> bstate -> outcome bstate.
+  Fixpoint loop_with (l : list stmt) (st : bstate) : outcome bstate :=
+    match l with
+    | [] => Ok st
+    | ss :: r => st' <- stepf ss st ;; loop_with r st'
+    end.
+End Loop.
+
+(* ast.go: build.  Structural recursion on the statement tree (the recursive call sits in the
+   closure handed to the substatement loop, as in the Go code). *)
 Fixpoint build (S : schema) (s : stmt) (p : option pref) {struct s} : outcome node :=
   match s with
   | Stmt kw ha a i subs =>
@@ -241,22 +258,15 @@ Fixpoint build (S : schema) (s : stmt) (p : option pref) {struct s} : outcome no
           nm <- special_name sd a ;;
           sr <- special_src sd i ;;
           pa <- special_parent S sd p ;;
-          let fix loop (l : list stmt) (st : bstate) {struct l} : outcome bstate :=
-            match l with
-            | [] => Ok st
-            | ss :: r => st' <- step sd (fun _ => build S ss (Some (ty, i))) ss st ;; loop r st'
-            end in
-          st <- loop subs (init_fields sd, [], []) ;;
+          st <- loop_with (fun ss st => step sd (fun _ => build S ss (Some (ty, i))) ss st)
+                          subs (init_fields sd, [], []) ;;
           finish sd ty kw nm sr pa st
       end
   end.
 
-(* the substatement loop as a function of its own (same as the inner fix of build) *)
-Fixpoint build_list (S : schema) (sd : sdef) (me : pref) (l : list stmt) (st : bstate) : outcome bstate :=
-  match l with
-  | [] => Ok st
-  | ss :: r => st' <- step sd (fun _ => build S ss (Some me)) ss st ;; build_list S sd me r st'
-  end.
+(* the substatement loop of a node of struct sd whose identity is me *)
+Definition build_list (S : schema) (sd : sdef) (me : pref) (l : list stmt) (st : bstate) : outcome bstate :=
+  loop_with (fun ss st => step sd (fun _ => build S ss (Some me)) ss st) l st.
 
 (* ------------------------------------------------------------------ modules.go *)
 
